@@ -112,13 +112,35 @@ def run_case(tape, tier):
         split = tape.draw("batch_split", nmemo + 1)
         expected = []     # grams in queue order: (dst, bytes)
 
+        rended = []       # (memo text, [grams]) in the order rend() was called
+        orig_rend = tx.rend
+
+        def rend(memo, *pa, **kwa):
+            grams = orig_rend(memo, *pa, **kwa)
+            rended.append((memo, [bytes(g) for g in grams]))
+            return grams
+        tx.rend = rend
+        order_problem = []
+
         def queue(batch):
             for text, dst in batch:
                 tx.memoit(text, dst)
             before = len(tx.txgs)
+            r0 = len(rended)
             tx.serviceTxMemos()
-            for g, d in list(tx.txgs)[before:]:
-                expected.append((gr.key(d), bytes(g)))
+            got = [(gr.key(d), bytes(g)) for g, d in list(tx.txgs)[before:]]
+            # memos become grams in the order they were queued, each memo's grams in gram order
+            want = []
+            for (text, dst), (rtext, grams) in zip(batch, rended[r0:]):
+                if rtext != text and not order_problem:
+                    order_problem.append("memos were turned into grams out of queue order: %r before %r" % (rtext[:12], text[:12]))
+                want += [(gr.key(dst), g) for g in grams]
+            if len(rended) - r0 != len(batch) and not order_problem:
+                order_problem.append("%d memos queued, %d turned into grams" % (len(batch), len(rended) - r0))
+            if got != want and not order_problem:
+                order_problem.append("the gram queue after serviceTxMemos is not the queued memos' grams in order (%d grams, expected %d)" % (
+                    len(got), len(want)))
+            expected.extend(got)
 
         def service():
             mode = tape.draw("svc_mode", 3)
@@ -151,11 +173,19 @@ def run_case(tape, tier):
         if not raised and split < nmemo:
             queue(memos[split:])
         faults_on[0] = False
+        # drain with faults off through one entry point per case: the greedy ones and the one-gram-per-call one must each
+        # get everything out within the bound
+        drain_mode = tape.draw("drain_mode", 3)
         for r in range(60 + 4 * len(expected)):
             if raised:
                 break
             try:
-                tx.serviceAllTx()
+                if drain_mode == 0:
+                    tx.serviceAllTx()
+                elif drain_mode == 1:
+                    tx.serviceTxGramsOnce()
+                else:
+                    tx.serviceTxGrams()
             except Exception as ex:
                 raised.append((type(ex).__name__, str(ex)[:120]))
             res.steps += 1
@@ -168,7 +198,9 @@ def run_case(tape, tier):
     res.sim_time = float(len(calls))
     fresh_block = False
     problem = None
-    if raised:
+    if order_problem and not raised:
+        problem = ("tx-memo-order", order_problem[0])
+    elif raised:
         problem = ("tx-service-raised", "servicing the transmit side raised %s: %s" % raised[0])
     else:
         gi = 0          # index of gram being sent
